@@ -20,6 +20,8 @@
 #include "mini_lapack.h"
 #include <vector>
 #include <cmath>
+#include <limits>
+#include <cstddef>
 #include <cstdlib>
 #include <cstring>
 
@@ -29,7 +31,8 @@ typedef long double LD;
 typedef unsigned long long u64;
 typedef unsigned __int128 u128;
 
-std::vector<MiniLapackCall> g_calls;
+// one log per thread: the C12/C14 drivers call solve()/inv() from several threads at once (the C16 driver has one thread)
+thread_local std::vector<MiniLapackCall> g_calls;
 
 // ---------------------------------------------------------------- exact singularity test
 const u64 PRIMES[3] = {2305843009213693951ULL /* 2^61-1 */, 2305843009213693921ULL, 2305843009213693907ULL};
@@ -284,12 +287,31 @@ void getrf(const char* name, int m, int n, T* a, int lda, int* ipiv, int* info) 
   record(name, n, 0, lda, 0, '-', t.cls(), st, 0, a, 0, n ? (long)sizeof(T) * ((long)(n - 1) * lda + n) : 0, 0);
 }
 
+// The routines USE their workspace, as LAPACK's do (WORK is scratch on entry and undefined on exit): a per-call pattern is
+// written over it and must still be there when the routine finishes.  A caller that hands the same workspace to two
+// concurrent calls (a workspace kept in a static, say) gets its result poisoned (and a data race on the workspace).
+template <typename T> struct WorkGuard {
+  T* w; int len; T token; T* poison;
+  WorkGuard(T* work, int n, T* out) : w(work), len(n > 0 ? n : 0), poison(out) {
+    static thread_local unsigned counter = 0;
+    token = (T)(1000003.0 + 7.0 * (double)(++counter % 4096) + 0.5 * (double)((reinterpret_cast<std::size_t>(&counter) >> 6) % 1024));
+    for (int i = 0; i < len; ++i) w[i] = token;
+  }
+  ~WorkGuard() {
+    bool ok = true;
+    for (int i = 0; i < len; ++i) if (!(w[i] == token)) ok = false;
+    if (!ok && poison) *poison = std::numeric_limits<T>::quiet_NaN();
+    if (len > 0) w[0] = (T)len;
+  }
+};
+
 template <typename T>
 void getri(const char* name, int n, T* a, int lda, const int* ipiv, T* work, int lwork, int* info) {
   *info = 0;
   if (lwork == -1) { work[0] = (T)max1(n); record(name, n, 0, lda, 0, '-', '-', 0, 1, a, 0, 0, 0); return; }
   if (lda < max1(n)) *info = -3; else if (lwork < max1(n)) *info = -6;
   if (*info) { record(name, n, 0, lda, 0, '-', '-', *info, 0, a, 0, 0, 0); return; }
+  WorkGuard<T> wg(work, lwork < n ? lwork : n, n > 0 ? a : 0);
   Touch t; std::vector<LD> W; std::vector<int> piv(n);
   load_general(a, n, lda, W, t);           // the factors L\U left by ?getrf
   for (int k = 0; k < n; ++k) piv[k] = ipiv[k] - 1;
@@ -317,6 +339,7 @@ void sytrf(const char* name, char uplo, int n, T* a, int lda, int* ipiv, T* work
   if (lwork == -1) { work[0] = (T)max1(n); record(name, n, 0, lda, 0, uplo, '-', 0, 1, a, 0, 0, 0); return; }
   if (!uplo_ok(uplo)) *info = -1; else if (n < 0) *info = -2; else if (lda < max1(n)) *info = -4;
   if (*info) { record(name, n, 0, lda, 0, uplo, '-', *info, 0, a, 0, 0, 0); return; }
+  WorkGuard<T> wg(work, lwork < n ? lwork : n, n > 0 ? a + (is_upper(uplo) ? 0 : 0) : 0);
   Touch t; SymAcc<T> A = {a, n, lda, is_upper(uplo), &t};
   std::vector<LD> W; std::vector<int> piv;
   load_sym(A, W);
@@ -331,10 +354,10 @@ void sytrf(const char* name, char uplo, int n, T* a, int lda, int* ipiv, T* work
 
 template <typename T>
 void sytri(const char* name, char uplo, int n, T* a, int lda, const int* ipiv, T* work, int* info) {
-  (void)work;
   *info = 0;
   if (!uplo_ok(uplo)) *info = -1; else if (n < 0) *info = -2; else if (lda < max1(n)) *info = -4;
   if (*info) { record(name, n, 0, lda, 0, uplo, '-', *info, 0, a, 0, 0, 0); return; }
+  WorkGuard<T> wg(work, n, n > 0 ? a : 0);      // ?sytri: WORK has dimension N
   Touch t; SymAcc<T> A = {a, n, lda, is_upper(uplo), &t};
   std::vector<LD> W; std::vector<int> piv(ipiv, ipiv + n);
   load_sym(A, W);                          // the factors left by ?sytrf
@@ -361,6 +384,7 @@ void sysv(const char* name, char uplo, int n, int nrhs, T* a, int lda, int* ipiv
   if (!uplo_ok(uplo)) *info = -1; else if (n < 0) *info = -2; else if (nrhs < 0) *info = -3;
   else if (lda < max1(n)) *info = -5; else if (ldb < max1(n)) *info = -8;
   if (*info) { record(name, n, nrhs, lda, ldb, uplo, '-', *info, 0, a, b, 0, 0); return; }
+  WorkGuard<T> wg(work, lwork < n ? lwork : n, (n > 0 && nrhs > 0) ? b : 0);
   Touch t; bool up = is_upper(uplo); SymAcc<T> A = {a, n, lda, up, &t};
   std::vector<LD> W; std::vector<int> piv;
   load_sym(A, W);
